@@ -1,9 +1,14 @@
 """C25 - Peer file replication never exposes a bad file and converges.
 
-Proof: coq/theories/FileRepl over the file-system model of coq/theories/Storage
-(C25_final_only_verified for ALL fault sequences, hostile peers and crash points;
-C25_presence_truthful_refuted / _guarded / _with_fix; C25_convergence_refuted / _guarded /
-_with_fix; C25_gate_refuted_no_peers / C25_gate_truthful_with_fixes).
+Proof: coq/theories/FileRepl over the file-system model of coq/theories/Storage.
+Theorems tied to the CURRENT code (presence judged on the final path since b7c1b90, a pull
+that runs out of attempts without candidate peers counted as failed since ca914ab; model
+configuration cfg_fix_presence = cfg_fix_nopeers = true): C25_final_only_verified(_jobs) for
+ALL fault sequences, hostile peers and crash points, C25_presence_truthful_with_fix,
+C25_convergence_with_fix, C25_gate_truthful_with_fixes.  Statements about the OLD variant
+(flags false), kept as the record of the two repaired defects and re-checked so that a revert
+is recognised: C25_presence_truthful_refuted / _guarded, C25_convergence_refuted / _guarded,
+C25_gate_refuted_no_peers.
 Tie: the real Puller + LocalBackend + FetchClient against a scripted TCP peer (every fetch
 outcome on real bytes), jobs run synchronously, bytes at the final/.part paths + counters +
 catch-up gate after each job compared with the model inside Coq.
@@ -19,11 +24,12 @@ from lib_storage import hx, ch, chopt, unh, coq_check
 
 AREA = "FileRepl"
 MODULES = ["Arc.FileRepl.Props"]
-THEOREMS = [("Arc.FileRepl.Props", t) for t in (
-    "C25_final_only_verified", "C25_final_only_verified_jobs",
-    "C25_presence_truthful_refuted", "C25_presence_truthful_guarded", "C25_presence_truthful_with_fix",
-    "C25_convergence_refuted", "C25_convergence_guarded", "C25_convergence_with_fix",
-    "C25_gate_refuted_no_peers", "C25_gate_truthful_with_fixes")]
+PRIMARY = ("C25_final_only_verified", "C25_final_only_verified_jobs", "C25_presence_truthful_with_fix",
+           "C25_convergence_with_fix", "C25_gate_truthful_with_fixes")                       # about the current code
+OLD_VARIANT = ("C25_presence_truthful_refuted", "C25_presence_truthful_guarded", "C25_convergence_refuted",
+               "C25_convergence_guarded", "C25_gate_refuted_no_peers")                       # about the code before b7c1b90 / ca914ab
+THEOREMS = [("Arc.FileRepl.Props", t) for t in PRIMARY + OLD_VARIANT]
+CODE_FLAGS = (True, True)        # the model configuration that IS the current code: (cfg_fix_presence, cfg_fix_nopeers)
 TIE_NAME = "C25 correspondence (filereplication.Puller + FetchClient + storage.LocalBackend vs Arc.FileRepl.Model.run_job)"
 HEADER = ("From Coq Require Import List NArith ZArith Bool String.\nFrom Arc Require Import Storage.Model Storage.Hex FileRepl.Model.\n"
           "Import ListNotations.\nOpen Scope string_scope.\n")
@@ -317,8 +323,11 @@ def run(res, tier, seed):
     cases = witness_cases() + [gen_case(rng, i) for i in range(n)]
     out = run_impl(cases, tier)
     res.stage("impl_harness", t1)
-    fixp, fixn = detect_flags(out)
-    res.cov["code_contains_repairs"] = {"presence_on_final_path": fixp, "no_peers_counts_as_failure": fixn}
+    seenp, seenn = detect_flags(out)
+    res.cov["code_contains_repairs"] = {"presence_on_final_path": seenp, "no_peers_counts_as_failure": seenn}
+    res.cov["theorems_tied_to_current_code"] = list(PRIMARY)
+    res.cov["theorems_about_old_variant"] = list(OLD_VARIANT)
+    fixp, fixn = CODE_FLAGS         # the model is evaluated as the current code; a revert shows up as oracle failures + disagreement
     t2 = time.time()
     r = evaluate(out, "Cases_" + tier, fixp, fixn)
     res.stage("coq_eval", t2)
@@ -403,8 +412,7 @@ def replay(res, path):
     if not c:
         print("replay file names no concrete case:", obj.get("summary"))
         return 1
-    probe = run_impl(witness_cases(), "replay_probe")
-    fixp, fixn = detect_flags(probe)
+    fixp, fixn = CODE_FLAGS
     out = run_impl([dict(c, label="replay")], "replay")
     r = evaluate(out, "Replay", fixp, fixn)
     ex = explain(out[0])
